@@ -30,7 +30,7 @@ def worlds(tier, rng, real, classes, attrs=False, nmax=6):
             k = rng.choice(classes)
             a = rng.randrange(nv)
             b = a if rng.random() < 0.2 else rng.randrange(nv)
-            lines.append("edge %s V%d V%d%s" % (k, a, b, " x=7" if rng.random() < 0.2 else ""))
+            lines.append("edge %s V%d V%d%s" % (k, a, b, " x=7" if (k in ("D", "U") and rng.random() < 0.3) else ""))
         if rng.random() < 0.08:
             lines.append("edge D V0 -")
         if rng.random() < 0.05:
@@ -84,6 +84,44 @@ class C16(Check):
 
     def search(self, tier, rng, real, v):
         yield from self.batches("quick", rng, real)
+
+    def extra_violations(self, stats):
+        """a render / sort callback that raises — an ordinary exception or a StopIteration (`next(it)` on an exhausted
+        iterator) — at its k-th invocation: the render must raise too, or return the COMPLETE text; never a shortened one"""
+        from engine import Violation
+        from edgegraph.output import plaintext
+        from edgegraph.structure import DirectedEdge as D_, UnDirectedEdge as U_
+        import random as _r
+        rng = _r.Random(4711)
+        out, probes = [], 0
+        for _ in range(40):
+            n = rng.randint(2, 5)
+            vs = [Vertex() for _ in range(n + 1)]
+            u = Universe(vertices=vs[:n])                    # the last vertex is an outsider
+            for _e in range(rng.randint(1, 8)):
+                rng.choice([D_, U_])(rng.choice(vs[:n]), rng.choice(vs))
+            name = {id(v): "v%d" % i for i, v in enumerate(vs)}
+            full = plaintext.basic_render(u, rfunc=lambda x: name[id(x)])
+            calls = [0]
+            for exc in (StopIteration, KeyError):
+                for k in range(1, 12):
+                    calls[0] = 0
+
+                    def rf(x, k=k, exc=exc):
+                        calls[0] += 1
+                        if calls[0] == k:
+                            raise exc()
+                        return name[id(x)]
+                    probes += 1
+                    try:
+                        got = plaintext.basic_render(u, rfunc=rf)
+                    except BaseException:  # noqa: BLE001   (propagating is what is expected)
+                        continue
+                    if calls[0] >= k and got != full and len(out) < 3:
+                        out.append(Violation("oracle", "basic_render returned %r although its rfunc raised %s at invocation %d "
+                                             "(the complete text is %r)" % (got, exc.__name__, k, full), ["sweep:basic_render rfunc fault@%d" % k]))
+        stats.extra["raising_rfunc_probes"] = probes
+        return out
 
     def oracle(self, real, line, out, pre):
         t = line.split()
@@ -285,6 +323,18 @@ class C15(Check):
         for sc in self.table_scripts:
             yield run(real, sc)
         self.table_scripts = []
+        # a universe with 300 members (sizes at which small-integer / small-table shortcuts stop holding): a ring
+        # with chords, self-loops and parallel links among the members beyond position 256
+        n = 300
+        lines = ["reset"] + ["vertex V"] * n
+        for i in list(range(0, n, 7)) + list(range(250, n)):
+            lines.append("edge %s V%d V%d" % (rng.choice("DU"), i, (i + 1) % n))
+        for i in range(255, n, 3):
+            lines.append("edge D V%d V%d" % (i, i))
+            lines.append("edge %s V%d V%d" % (rng.choice("DU"), i, rng.randrange(250, n)))
+            lines.append("edge D V%d V%d" % ((i + 1) % n, i))
+        lines.append("universe m=%s" % ",".join("V%d" % i for i in range(n)))
+        yield run(real, lines + ["pyvis V%d -" % n, "pyvisd V%d e" % n])
         for lines, unis in worlds(tier, rng, real, ["D", "U", "DD", "UU", "X"]):
             qs = ["%s V%d %s" % (pv, u, re_) for u in unis for re_ in ("-", "e") for pv in ("pyvis", "pyvisd", "pyvisc")]
             yield run(real, lines + qs)
